@@ -9,6 +9,6 @@ VIEW view
 INVARIANTS TypeOK AttemptBound FallbackAtMostOnce SecondaryUntouchedWithoutFallback ErrIffNoAccept UniIsLocal
            AddrFromAccepted OverridesOnlyFromAccepted PromptAfterCancel ApiNoWireAfterCancel
            I_NoWireAfterCancel I_NoFallbackAfterCancel I_NoInflightAfterCancel I_RegReflectsAccepted
-           I_ErrorIndicationRespected I_AcceptedHasAddr I_FailureIsRegFailed
+           I_ErrorIndicationRespected I_AcceptedHasAddr I_FailureIsRegFailed I_DelayOnceAfterSuccess
 PROPERTIES NothingAfterResult FallbackOnlyAfterGiveUp
 CHECK_DEADLOCK FALSE
